@@ -25,6 +25,8 @@ def main():
     out = os.path.join(src, "out")
     meta = json.load(open(os.path.join(out, "meta.json")))
     demo_cmd = meta.get("demo_command") or "cargo test --offline --test seeded_demo"
+    if len(sys.argv) > 4:
+        demo_cmd = sys.argv[4]
     wt = "/tmp/pfv/%s" % name
     subprocess.run(["git", "-C", "/repo", "worktree", "remove", "--force", wt], capture_output=True)
     shutil.rmtree(wt, ignore_errors=True)
